@@ -29,6 +29,9 @@ fn mk_c05() -> Vec<Box<dyn Monitor>> {
     vec![Box::new(mon::c05::C05::new())]
 }
 
+fn mk_c01() -> Vec<Box<dyn Monitor>> {
+    vec![Box::new(mon::c01::C01 { every: 1 })]
+}
 fn mk_c06() -> Vec<Box<dyn Monitor>> {
     vec![Box::new(mon::swaps::C06)]
 }
@@ -40,6 +43,16 @@ const HIST: &str = "seeded multi-actor histories (LPs, traders, keeper, fee auth
 
 fn specs() -> Vec<CheckSpec> {
     vec![
+    CheckSpec {
+        id: "C01",
+        profile: Profile::Core,
+        mk: mk_c01,
+        level: "exploration",
+        rule: "HIST after every landed transaction that touches a pool: (1) token conservation per mint, (2) a full drain replayed on a fork through the real handlers and the real token program - every position (random order) update-fees, decrease all, collect fees, and collect-protocol-fees at a random place; the violation is a drain instruction failing for lack of funds, (3) vault >= protocol owed + stored fees owed + exact withdrawable amounts, (4) an injected CPI failure must fail the transaction and leave the ledger byte-identical; sampled forks where a single party swaps back and forth alone / adds and removes liquidity alone must not end ahead; a case is one (instruction kind, #positions, zero liquidity, protocol fees owed, spacing, price at bound) tuple at which the drain ran",
+        quick_runs: 300,
+        thorough_secs: 600,
+        assumptions: COMMON_ASSUMPTIONS,
+    },
     CheckSpec {
         id: "C03",
         profile: Profile::Core,
